@@ -92,3 +92,12 @@ Definition store_setcol (same_owner is_own_column same_len same_ids : bool) (k2 
   if k_setcol_by_reference same_owner is_own_column same_len same_ids then buffer_store k2 raw
   else if negb same_len then Raise ValueError
   else setslice_col true k2 k2 raw.
+
+(* ---- a scalar written to n addressed cells (n may be 0) ----
+   Every scalar write form ends in column._tosequence(value, n): col[a:b] = v (_setslicekey, pinned), col[index list] = v
+   (_setsequencekey, pinned), col[selection] = v (both _setdatamatrixkey, pinned: self[index list] = val),
+   dm.name = v / dm[name] = v / constructor keyword (tail of _set_col, pinned: self._cols[name][:] = value).
+   _tosequence evaluates the coercion of the scalar ONCE, before the broadcast to n cells, so the verdict does not
+   depend on n: a write that addresses no cell at all still rejects what the column type rejects. *)
+Definition store_scalar_n (k : kind) (n : nat) (v : pyv) : res (list val) :=
+  bind (toseq_scalar k v) (fun x => Ok (repeat x n)).
